@@ -88,6 +88,65 @@ def register(op):
         st, brk = a
         return cu.strand_table_to_sequence(st, strand_break="".join(brk), join=True)
 
+    def _use(tab, brk, u):
+        """one use of a caller-held strand table"""
+        if u == "list":
+            return cu.strand_table_to_sequence(tab, strand_break=brk)
+        if u == "join":
+            return cu.strand_table_to_sequence(tab, strand_break=brk, join=True)
+        if u == "retable":          # table -> sequence -> table
+            return cu.make_strand_table(cu.strand_table_to_sequence(tab, strand_break=brk), strand_break=brk)
+        if u == "scramble":         # the caller destroys an earlier rendering: it is the caller's own list
+            r = cu.strand_table_to_sequence(tab, strand_break=brk)
+            if len(tab) > 1:        # (with one strand the library hands back that strand itself)
+                r.clear()
+            return None
+        raise ValueError("harness: unknown use " + repr(u))
+
+    @op("strand_table_to_sequence_reuse")
+    def _(a):
+        """[table, break, uses]: ONE table object is used several times (rendered as list / as joined string / turned back
+        into a table / an earlier rendering destroyed), failures ignored; the answer is the rendering asked last, which
+        must be that of a fresh table: rendering is a query of the table"""
+        st, brk, uses = a
+        tab = copy.deepcopy(st)
+        for u in uses:
+            try:
+                _use(tab, brk, u)
+            except Exception:
+                pass
+        return cu.strand_table_to_sequence(tab, strand_break=brk)
+
+    @op("strand_table_reuse_fault")
+    def _(a):
+        """direct statement: every use of a caller-held strand table leaves the table as it was and answers what the table
+        says (strands joined by the break marker; back to the table when no strand is empty or contains the marker).
+        None, or a description of the first fault."""
+        st, brk, uses = a
+        if not st:
+            return None
+        tab, ref = copy.deepcopy(st), copy.deepcopy(st)
+        flat = []
+        for k, s in enumerate(ref):
+            flat += ([brk] if k else []) + list(s)
+        text = all(isinstance(x, str) for x in flat)
+        for k, u in enumerate(list(uses) + ["list"]):
+            if u == "join" and not text:
+                continue
+            try:
+                r = _use(tab, brk, u)
+            except Exception as e:
+                return f"use {k} ({u}) raised {type(e).__name__}"
+            if tab != ref:
+                return f"use {k} ({u}) changed the caller's table {ref!r} into {tab!r}"
+            if u == "list" and r != flat:
+                return f"use {k} ({u}) of the table {ref!r} gives {r!r}"
+            if u == "join" and r != brk.join("".join(s) for s in ref):
+                return f"use {k} ({u}) of the table {ref!r} gives {r!r}"
+            if u == "retable" and all(ref) and brk not in [x for s in ref for x in s] and [list(s) for s in r] != ref:
+                return f"use {k} ({u}): table -> sequence -> table gives {r!r} for {ref!r}"
+        return None
+
     @op("make_loop_index")
     def _(a):
         li, ext = _stable(lambda: list(_unmodified(cu.make_loop_index, _tup(a))))
